@@ -134,6 +134,16 @@ func corpus() []entry {
 		out = append(out, entry{"template", t})
 		out = append(out, entry{"config", "a = \"" + strings.ReplaceAll(t, "\n", "\\n") + "\"\n"})
 	}
+	// templates that already contain one erroneous directive (the parser is in recovery mode
+	// when it reaches the rest): every single edit of them is an input with two damaged places
+	for _, t := range []string{
+		`%{ bogus }x%{ for k, v in m }${k}${v}%{ endfor }`,
+		`%{ if }y%{ endif }%{ for x in l }${x}%{ endfor }${a}`,
+		`${ }%{ if c }y%{ else }n%{ endif }%{ for i, x in l ~}${i}%{ endfor }`,
+	} {
+		out = append(out, entry{"template", t})
+		out = append(out, entry{"config", "a = \"" + t + "\"\n"})
+	}
 	for _, j := range jsonDocs {
 		out = append(out, entry{"json", j})
 	}
